@@ -141,6 +141,21 @@ fn open_iter(re: &Regex, spec: &RegexSpec, text: &'static str, start: usize) -> 
 
 // ---------------------------------------------------------------- reference model (C09)
 
+/// Run a blocking call that belongs to the harness (pristine-oracle pipe) so that the
+/// scheduler's stall detector does not mistake it for a lock of the code under test.
+fn harness_blocking<R>(f: impl FnOnce() -> R) -> R {
+    let c = sched::cur_ctx();
+    let s = c.and_then(|c| if c.sched.is_null() { None } else { Some((unsafe { &*c.sched }, c.tid)) });
+    if let Some((s, tid)) = s {
+        s.set_harness_wait(tid, true);
+    }
+    let r = f();
+    if let Some((s, tid)) = s {
+        s.set_harness_wait(tid, false);
+    }
+    r
+}
+
 /// Run `f` in model mode: hook counts only (own fuel), no scheduling, no injected
 /// cancel, no site statistics. Err(None) = ran out of fuel, Err(Some(msg)) = panic.
 pub fn model_mode<R>(fuel: u64, f: impl FnOnce() -> R) -> (Result<R, Option<String>>, u64) {
@@ -259,7 +274,7 @@ impl<'w> Model<'w> {
                     .set("cursor", J::u(cursor as u64))
                     .set("fuel", J::u(fuel));
                 self.stats.lock().unwrap().pristine_queries += 1;
-                match crate::pristine::query(&req.to_string()) {
+                match harness_blocking(|| crate::pristine::query(&req.to_string())) {
                     Some(p) if !p.starts_with('?') => {
                         if p != *inproc {
                             self.pristine_viols.lock().unwrap().push((format!("first match of /{}/{} ({:?},{:?}) on {:?} from {}", spec.pattern, spec.flags, spec.exec, spec.input, text, cursor), p, inproc.clone()));
@@ -543,6 +558,7 @@ pub struct ClientStats {
     pub compile_ops: u64,
     pub compile_errs: u64,
     pub bursts: u64,
+    pub closure_panics: u64,
     /// finished iterator histories: (history hash, features, nexts)
     pub iter_histories: Vec<(u64, u32, u32)>,
     pub range_observation_failures: u64,
@@ -617,6 +633,7 @@ enum Armed {
     Compile(u32, &'static str),
     CloneRe(Arc<Regex>),
     Burst(Arc<Regex>, u32, &'static str, u32),
+    ReplacePanic(Arc<Regex>, &'static str, u32),
 }
 
 enum ArmedOut {
@@ -905,6 +922,16 @@ impl<'a> Client<'a> {
                 let hay = *hay % nhay;
                 Armed::Compile(*re % world.regexes.len() as u32, self.sh.bufs[hay as usize].text())
             }
+            OpKind::ReplacePanic { re, hay, k } => {
+                let hay = *hay % nhay;
+                match self.resolve(*re) {
+                    Err(e) => {
+                        self.rec(format!("NoRegex({})", e), 0, Fault::None);
+                        return;
+                    }
+                    Ok((rx, _, _)) => Armed::ReplacePanic(rx, self.sh.bufs[hay as usize].text(), *k),
+                }
+            }
             OpKind::Burst { re, hay, n } => {
                 let hay = *hay % nhay;
                 match self.resolve(*re) {
@@ -920,7 +947,7 @@ impl<'a> Client<'a> {
         // which shared object is being searched (for in-flight statistics)
         let obj = match (&armed, &op.kind) {
             (Armed::Next(h), _) | (Armed::Drain(h), _) => self.handles[*h as usize].as_ref().map(|x| x.obj).unwrap_or(NO_OBJ),
-            (_, OpKind::Find { re, .. }) | (_, OpKind::Replace { re, .. }) | (_, OpKind::ReplaceNested { re, .. }) | (_, OpKind::Burst { re, .. }) => match re {
+            (_, OpKind::Find { re, .. }) | (_, OpKind::Replace { re, .. }) | (_, OpKind::ReplaceNested { re, .. }) | (_, OpKind::Burst { re, .. }) | (_, OpKind::ReplacePanic { re, .. }) => match re {
                 ReRef::Shared(i) if self.sh.kind != PassKind::Fresh => *i % world.regexes.len() as u32,
                 ReRef::Clone(c) if self.sh.kind != PassKind::Fresh => 1000 + (self.tid as u32) * 16 + c,
                 _ => NO_OBJ,
@@ -986,7 +1013,7 @@ impl<'a> Client<'a> {
                 // never reuse an unwound object
                 if let Armed::Next(h) | Armed::Drain(h) = armed {
                     if let Some(hd) = self.handles[h as usize].as_mut() {
-                        if fault == Fault::None {
+                        if fault == Fault::None && !is_poison_after_injected(&outcome) {
                             // an engine panic is an observation for the model as well
                             let mut unk = 0;
                             let v = hd.model.step(self.sh.model, &NextOut::Panicked(outcome.clone()), &mut unk);
@@ -1093,7 +1120,7 @@ impl<'a> Client<'a> {
                     if self.sh.kind == PassKind::Fresh && world.knobs.pristine && crate::pristine::available() {
                         if let Some(req) = self.pristine_request(op, &armed) {
                             self.sh.model.stats.lock().unwrap().pristine_queries += 1;
-                            match crate::pristine::query(&req) {
+                            match harness_blocking(|| crate::pristine::query(&req)) {
                                 Some(p) if !p.starts_with('?') => {
                                     if p != s {
                                         self.c09.push(C09Viol {
@@ -1261,6 +1288,33 @@ impl<'a> Client<'a> {
                 self.stats.nested += 1;
                 ArmedOut::Text(format!("Str({:?})", s))
             }
+            Armed::ReplacePanic(rx, text, k) => {
+                // panic in user code: the closure unwinds out of replace_all_with on its k-th
+                // call, between two matches, while the library's iterator is alive
+                struct UserPanic;
+                let calls = std::cell::Cell::new(0u32);
+                let text: &'static str = text;
+                let r = catch_unwind(AssertUnwindSafe(|| {
+                    rx.replace_all_with(text, |m| {
+                        calls.set(calls.get() + 1);
+                        if calls.get() >= *k {
+                            std::panic::resume_unwind(Box::new(UserPanic));
+                        }
+                        format!("[{}]", m.range().len())
+                    })
+                }));
+                self.stats.closure_panics += 1;
+                match r {
+                    Ok(s) => ArmedOut::Text(format!("Str({:?})", s)),
+                    Err(p) => {
+                        if p.is::<UserPanic>() {
+                            ArmedOut::Text(format!("ClosurePanicked(at call {})", calls.get()))
+                        } else {
+                            std::panic::resume_unwind(p)
+                        }
+                    }
+                }
+            }
             Armed::Burst(rx, reidx, text, n) => {
                 // A long history on one object: cycle over the op's haystack and every other
                 // haystack this thread may read (shared immutable ones and its own), n rounds.
@@ -1348,6 +1402,7 @@ impl ClientStats {
         self.compile_ops += o.compile_ops;
         self.compile_errs += o.compile_errs;
         self.bursts += o.bursts;
+        self.closure_panics += o.closure_panics;
         self.range_observation_failures += o.range_observation_failures;
         self.iter_histories.extend(o.iter_histories.iter().cloned());
     }
@@ -1470,6 +1525,8 @@ pub struct Violation {
 
 #[derive(Default, Clone, Debug)]
 pub struct CmpInfo {
+    /// pass-2/3 outcome is a PoisonError panic after the harness unwound a search in that pass
+    pub poisoned_after_injected_unwind: u64,
     pub compared: u64,
     pub step_count_divergence: u64,
     pub fault_divergence: u64,
@@ -1489,8 +1546,15 @@ pub struct Exec {
 
 fn compare(world: &World, a: &PassRes, b: &PassRes, bno: u8, clause: &str, viols: &mut Vec<Violation>, info: &mut CmpInfo) {
     for t in 0..world.threads.len() {
+        // after a *relaxed* divergence (fault divergence, poison after an injected unwind) the
+        // thread's script state differs between the passes: its later ops are incomparable
+        let mut diverged = false;
         for i in 0..world.threads[t].len() {
             let (r1, r2) = (&a.recs[t][i], &b.recs[t][i]);
+            if diverged {
+                info.incomparable_dead += 1;
+                continue;
+            }
             if r1.skipped_dead || r2.skipped_dead {
                 if r1.skipped_dead != r2.skipped_dead {
                     info.incomparable_dead += 1;
@@ -1509,12 +1573,24 @@ fn compare(world: &World, a: &PassRes, b: &PassRes, bno: u8, clause: &str, viols
                         expected: format!("{} in {} steps", r1.outcome, r1.steps),
                         observed: format!("OutOfFuel after {} steps", r2.steps),
                     });
+                } else if r2.fault == Fault::None && is_poison_after_injected(&r2.outcome) {
+                    info.poisoned_after_injected_unwind += 1;
+                    diverged = true;
                 } else {
                     info.fault_divergence += 1;
+                    diverged = true;
                 }
                 continue;
             }
-            if r1.outcome != r2.outcome {
+            if r1.outcome != r2.outcome && is_poison_after_injected(&r2.outcome) {
+                // A search unwound by the harness (cancel / fuel) cannot happen in real use: no
+                // caller can interrupt next() mid-instruction. If it poisoned a lock that correct
+                // code unwrap()s, the later panic is a consequence of the injected fault, not of
+                // sharing. Narrow relaxation: only PoisonError panics, only in a pass with an
+                // injected unwind.
+                info.poisoned_after_injected_unwind += 1;
+                diverged = true;
+            } else if r1.outcome != r2.outcome {
                 viols.push(Violation {
                     property: "C19",
                     clause: clause.to_string(),
@@ -1589,6 +1665,15 @@ pub fn pristine_handler(req: &str) -> String {
     }
 }
 
+/// Number of searches unwound by the harness (cancel / fuel) on *shared* objects in the
+/// current world (passes 2 and 3). Such an unwind cannot happen in real use; it can poison a
+/// lock that correct code unwrap()s.
+use crate::sched::INJECTED_UNWINDS as INJECTED_UNWINDS_SHARED;
+
+fn is_poison_after_injected(outcome: &str) -> bool {
+    outcome.starts_with("Panicked(") && outcome.contains("PoisonError") && INJECTED_UNWINDS_SHARED.load(std::sync::atomic::Ordering::Relaxed) > 0
+}
+
 /// Crash triage: run only the sequential Fresh pass (passes 2 and 3 are skipped).
 pub static ONLY_PASS1: std::sync::atomic::AtomicBool = std::sync::atomic::AtomicBool::new(false);
 
@@ -1606,6 +1691,7 @@ fn empty_pass(p1: &PassRes) -> PassRes {
 }
 
 pub fn execute(world: &World, explicit: Option<&[Segment]>) -> Exec {
+    INJECTED_UNWINDS_SHARED.store(0, std::sync::atomic::Ordering::Relaxed);
     sched::install_hook();
     install_panic_hook();
     let bufs: Vec<HayBuf> = world.hays.iter().map(|h| HayBuf::new(&h.text)).collect();
@@ -1634,6 +1720,8 @@ pub fn execute(world: &World, explicit: Option<&[Segment]>) -> Exec {
     let compile_errs = regs.iter().filter(|r| r.is_err()).count() as u64;
 
     // pass 2: simulated threads on the shared objects
+    // (unwinds injected into the private objects of pass 1 cannot poison anything shared)
+    INJECTED_UNWINDS_SHARED.store(0, std::sync::atomic::Ordering::SeqCst);
     reset(&bufs);
     let nops = world.nops() as u64;
     let (strategy, expl) = match explicit {
